@@ -252,7 +252,22 @@ fn parse_as<T: serde::de::DeserializeOwned>(c: &Case) -> Option<Error> {
     }
 }
 
+/// A panic inside the parse itself is not this property's business (C01 / C19): such a case has no
+/// error to render. Counted in the evidence.
 fn parse_case(c: &Case) -> Option<Error> {
+    match engine::catch(|| parse_case_inner(c)) {
+        engine::Caught::Ok(r) => r,
+        engine::Caught::Panic(..) => {
+            PARSE_PANICS.with(|p| p.set(p.get() + 1));
+            None
+        }
+    }
+}
+thread_local! {
+    static PARSE_PANICS: std::cell::Cell<u64> = const { std::cell::Cell::new(0) };
+}
+
+fn parse_case_inner(c: &Case) -> Option<Error> {
     match c.target {
         Target::Strict => parse_as::<Strict>(c),
         Target::Enum => parse_as::<En>(c),
@@ -536,6 +551,9 @@ struct Model {
     /// a '\r' that is not part of "\r\n": the parser counts it as a line break, the snippet code
     /// does not; layout checks are not applied to such inputs
     lone_cr: bool,
+    /// U+FEFF somewhere after the start of the text (the parser gives it special treatment in
+    /// places; nothing is documented about its column): layout checks are not applied
+    bom_inside: bool,
     ends_with_newline: bool,
 }
 impl Model {
@@ -559,7 +577,8 @@ impl Model {
         if t.ends_with('\r') {
             lone_cr = true;
         }
-        Model { lines, lone_cr, ends_with_newline: t.ends_with('\n') }
+        let bom_inside = t.contains('\u{feff}');
+        Model { lines, lone_cr, bom_inside, ends_with_newline: t.ends_with('\n') }
     }
     fn line(&self, n: usize) -> Option<&str> {
         if n == 0 { None } else { self.lines.get(n - 1).map(|s| s.as_str()) }
@@ -590,7 +609,7 @@ fn gutter(line: &str) -> Option<GLine> {
     }
     let after = &line[bar + 1..];
     let (rest, col) = if after.is_empty() {
-        ("", bar + 1)
+        ("", bar + 2)
     } else if let Some(r) = after.strip_prefix(' ') {
         (r, bar + 2)
     } else {
@@ -710,6 +729,8 @@ struct Align {
     right_marker: bool,
 }
 
+const ALIGN_CAP: usize = 2048;
+
 /// All ways in which `shown` can be read as `["…"] + fragment of the line + ["…"]`.
 fn alignments(lm: &LineModel, shown: &str) -> Vec<Align> {
     let mut out = vec![];
@@ -736,17 +757,24 @@ fn alignments(lm: &LineModel, shown: &str) -> Vec<Align> {
                 }
                 continue;
             }
-            for (pos, _) in lm.full.match_indices(core) {
+            // every occurrence (overlapping ones included) that starts and ends at a piece boundary
+            let mut last = usize::MAX;
+            for &pos in &lm.starts {
+                if pos == last {
+                    continue;
+                }
+                last = pos;
+                if !lm.full[pos..].starts_with(core) {
+                    continue;
+                }
                 let end = pos + core.len();
-                // both ends must be piece boundaries; with empty pieces several indices share an
-                // offset: take the innermost ones (fewest characters)
-                let Ok(_) = lm.starts.binary_search(&pos) else { continue };
                 let Ok(_) = lm.starts.binary_search(&end) else { continue };
+                // with empty pieces several indices share an offset: take the innermost ones
                 let i = lm.starts.partition_point(|&s| s <= pos) - 1; // last index with start == pos
                 let j = lm.starts.partition_point(|&s| s < end); // first index with start == end
                 let (i, j) = if i > j { (j, j) } else { (i, j) };
                 out.push(Align { i, j, lead: usize::from(left), right_marker: right });
-                if out.len() > 64 {
+                if out.len() >= ALIGN_CAP {
                     return out;
                 }
             }
@@ -826,7 +854,7 @@ fn check_window(cx: &Ctx17, w: &Window, notes: &mut Notes) -> Result<(), String>
         let lm = LineModel::new(src, !w.secondary);
         let al = alignments(&lm, shown);
         if al.is_empty() {
-            let trimmed = !w.secondary && (shown.starts_with("...") || shown.ends_with("..."));
+            let trimmed = !w.secondary && renderer_trimmed(shown);
             if trimmed {
                 notes.trimmed_by_renderer = true;
                 if *n == l {
@@ -856,11 +884,19 @@ fn check_window(cx: &Ctx17, w: &Window, notes: &mut Notes) -> Result<(), String>
                 let right_ok = a.j.saturating_sub(c) <= cx.radius;
                 count <= two_r1 && left_ok && right_ok
             } else {
-                let intact = a.i == 0 && a.j == lm.nchars && a.lead == 0 && !a.right_marker;
-                let left_of_window = lm.nchars.saturating_add(cx.radius) < c; // len <= c - r - 1
+                // (a reader's ring may hold only the head of its last line or the tail of its first
+                // line: what the snippet code sees as the whole line is then a part of the input line)
+                let intact = a.lead == 0
+                    && !a.right_marker
+                    && if cx.reader { a.i == 0 || a.j == lm.nchars } else { a.i == 0 && a.j == lm.nchars };
+                let left_of_window = count.saturating_add(cx.radius) < c; // len <= c - r - 1
                 count <= two_r1 || (intact && left_of_window)
             }
         });
+        if !ok && al.len() >= ALIGN_CAP {
+            notes.caret_skipped.push("too many ways to align a repetitive line");
+            continue;
+        }
         if !ok {
             let a = &al[0];
             return Err(format!(
@@ -919,9 +955,9 @@ fn check_window(cx: &Ctx17, w: &Window, notes: &mut Notes) -> Result<(), String>
             }
         }
         let left_trim = shown.starts_with("...");
-        let right_trim = shown.ends_with("...");
+        let right_trim = !left_trim || shown.chars().rev().take(6).collect::<String>().contains("...");
         let width = sw(shown);
-        if (left_trim && d < 3) || (right_trim && d + 3 >= width) {
+        if (left_trim && d < 4) || (right_trim && d + 8 >= width) {
             notes.caret_skipped.push("caret on a trim marker");
             return Ok(());
         }
@@ -962,12 +998,17 @@ fn check_window(cx: &Ctx17, w: &Window, notes: &mut Notes) -> Result<(), String>
             }
         } else {
             // column past the text: caret at the end of the line
-            if a.j == lm.nchars && !a.right_marker && d == end_col {
+            let rest_blank = lm.full[lm.starts[a.j]..].chars().all(|ch| ch == ' ' || ch == '\u{a0}');
+            if (a.j == lm.nchars || rest_blank) && !a.right_marker && d >= end_col {
                 ok = true;
                 break;
             }
         }
         seen.push((idx, end_col));
+    }
+    if !ok && al.len() >= ALIGN_CAP {
+        notes.caret_skipped.push("too many ways to align a repetitive line");
+        return Ok(());
     }
     if !ok {
         let above: String = {
@@ -992,6 +1033,14 @@ fn check_window(cx: &Ctx17, w: &Window, notes: &mut Notes) -> Result<(), String>
     }
     notes.caret_checked += 1;
     Ok(())
+}
+
+/// annotate-snippets cut the line itself (lines wider than its 140-column budget): `...` at the
+/// start and / or at the end (zero-width characters may trail the end marker)
+fn renderer_trimmed(shown: &str) -> bool {
+    // (wide or zero-width characters at the cut can leave a stray character after the end marker)
+    let tail: String = shown.chars().rev().take(6).collect::<Vec<_>>().into_iter().rev().collect();
+    shown.starts_with("...") || (sw(shown) >= 100 && tail.contains("..."))
 }
 
 fn clip(s: &str, n: usize) -> String {
@@ -1030,15 +1079,26 @@ struct Facts {
     messages: Vec<String>,
     loc: Option<(usize, usize)>,
 }
+fn collect_messages(e: &Error, out: &mut Vec<String>) {
+    let inner = e.without_snippet();
+    out.push(DefaultMessageFormatter.format_message(inner).into_owned());
+    out.push(UserMessageFormatter.format_message(inner).into_owned());
+    match inner {
+        Error::ValidationErrors { errors } | Error::ValidatorErrors { errors } => {
+            for x in errors {
+                collect_messages(x, out);
+            }
+        }
+        _ => {}
+    }
+}
 fn facts(c: &Case) -> Facts {
     let err = parse_case(c);
     let model = Model::new(&c.text);
     let mut messages = vec![];
     let mut loc = None;
     if let Some(e) = &err {
-        let inner = e.without_snippet();
-        messages.push(DefaultMessageFormatter.format_message(inner).into_owned());
-        messages.push(UserMessageFormatter.format_message(inner).into_owned());
+        collect_messages(e, &mut messages);
         loc = e.location().map(|l| (l.line() as usize, l.column() as usize));
     }
     Facts { err, model, messages, loc }
@@ -1083,8 +1143,13 @@ fn sig_reader_partial_line(c: &Case, f: &Facts) -> bool {
 /// Known finding 3: in the hand-written secondary ("defined here") window the marker line has a
 /// fixed two-column gutter, so with line numbers of two or more digits the caret is shifted.
 /// Predicate: the error carries two distinct locations and the secondary window reaches line 10.
-fn sig_secondary_gutter(f: &Facts) -> bool {
+fn sig_secondary_gutter(c: &Case, f: &Facts) -> bool {
     let Some(e) = &f.err else { return false };
+    if is_validation(e) {
+        // several issues, each with its own pair of locations (not all reachable through the public
+        // API): any alias in a document of ten or more lines
+        return c.text.contains('*') && f.model.lines.len() >= 10;
+    }
     let Some(ls) = e.locations() else { return false };
     let (r, d) = (ls.reference_location, ls.defined_location);
     if r == Location::UNKNOWN || d == Location::UNKNOWN || r == d {
@@ -1114,7 +1179,10 @@ fn check_with(c: &Case, f: &Facts) -> Result<Notes, String> {
     } else {
         f.messages.iter().any(|m| m.contains('\n'))
     };
-    let layout_ok = !f.model.lone_cr && !multi_line_msg;
+    let layout_ok = !f.model.lone_cr && !f.model.bom_inside && !multi_line_msg;
+    if f.model.bom_inside {
+        notes.caret_skipped.push("input has U+FEFF after the start");
+    }
     if f.model.lone_cr {
         notes.caret_skipped.push("input has a lone CR line break");
     }
@@ -1122,7 +1190,7 @@ fn check_with(c: &Case, f: &Facts) -> Result<Notes, String> {
         notes.caret_skipped.push("message spans several lines");
     }
     // is the snippet form promised? (string entry points, options as documented)
-    let snippet_expected = !reader
+    let snippet_expected = matches!(c.entry, Entry::Str | Entry::Slice)
         && layout_ok
         && !validation
         && c.opts.snippet
@@ -1250,4 +1318,965 @@ fn show(path: &str) {
     }
     println!("===== verdict: {:?}", check_case(&c).map(|n| (n.snippet_form, n.windows, n.caret_checked, n.caret_skipped, n.unparsed)));
     println!("signatures: {:?}", C17::signatures(&c));
+}
+
+// ------------------------------------------------------------------------------------------
+// generators
+
+const RADII: [usize; 6] = [0, 1, 5, 64, 1_000_000, usize::MAX];
+const ENTRIES: [Entry; 7] = [Entry::Str, Entry::Reader1, Entry::Reader8192, Entry::Slice, Entry::Multi, Entry::Reader7, Entry::ReadIter];
+
+/// YAML escapes (to be written inside double quotes) that decode to something interesting
+const ESC_PAYLOADS: [&str; 22] = [
+    r"\e[31mX", r"\x9b31m", r"\u009b", r"\x7f", r"\a", r"\0", r"\b", r"\e]0;t\a", r"\N", r"\L", r"\P", r"\_", r"\r",
+    r"\n", r"\t", r"\x1b[2J", r"\U0000009b", r"\v", r"\f", r"\x80", r"\x9f", r"ok\x01",
+];
+/// raw text (plain / single-quoted scalars, comments)
+const RAW_PAYLOADS: [&str; 16] = [
+    "\u{7f}", "\u{9b}31m", "\u{85}", "\u{1b}[31m", "\u{7}", "\u{2028}", "世界", "😀", "e\u{301}", "\u{202e}abc",
+    "a\u{200d}b", "\u{a0}", "x\u{feff}y", "\u{80}", "\u{9f}z", "plain",
+];
+
+fn opts_with(crop: usize, snippet: bool) -> DeOpts {
+    DeOpts { crop, snippet, ..DeOpts::default() }
+}
+
+/// documents in which the scalar token `q` (already in YAML syntax) is reflected into a message
+fn reflect_docs(q: &str) -> Vec<(String, Target)> {
+    vec![
+        (format!("a: 1\n{q}: 1\n"), Target::Strict),
+        (format!("{q}\n"), Target::Enum),
+        (format!("{q}: 1\n"), Target::Enum),
+        (format!("{q}: 1\nb: 2\n{q}: 3\n"), Target::MapI32),
+        (format!("- {q}: 1\n  b: 2\n  {q}: 3\n"), Target::Untyped),
+        (format!("a: {q}\n"), Target::Strict),
+        (format!("- 1\n- {q}\n- 3\n"), Target::VecI32),
+        (format!("{q}\n"), Target::Bool),
+        (format!("{q}\n"), Target::Char),
+        (format!("{q}\n"), Target::I32),
+        (format!("e: {q}\n"), Target::Wrap),
+        (format!("m:\n  {q}: 1\n  zz: 0\n  {q}: 2\n"), Target::Wrap),
+        (format!("s:\n  a: 1\n  {q}: 1\n"), Target::Wrap),
+        (format!("f: {q}\n"), Target::Wrap),
+        (format!("t: [1, {q}]\n"), Target::Wrap),
+        (format!("ch: {q}\n"), Target::Wrap),
+        (format!("items:\n  {q}:\n    name: x\n    n: 5\n"), Target::Garde),
+        (format!("list:\n  - name: {q}\n    n: 50\n"), Target::Garde),
+        (format!("items:\n  {q}:\n    name: x\n    n: 5\n"), Target::Validator),
+        (format!("list:\n  - name: {q}\n    n: 50\n"), Target::Validator),
+        (format!("count: &v {q}\nflag: *v\n"), Target::Alias),
+        (format!("count: 1\nflag: &v {q}\nother: *v\n"), Target::Alias),
+    ]
+}
+
+fn reflect_leaf_docs(payload_in_quotes: &str) -> Vec<(String, Target)> {
+    let mut v = vec![];
+    for kind in ["custom:", "value:", "char:", "other:"] {
+        v.push((format!("r: \"{kind}{payload_in_quotes}\"\n"), Target::Reflect));
+        v.push((format!("l:\n  - ok\n  - \"{kind}{payload_in_quotes}\"\n"), Target::Reflect));
+    }
+    v
+}
+
+fn wrap_doc(doc: &str, lead: usize, trail: usize, crlf: bool, filler: &str) -> String {
+    let mut s = String::new();
+    for i in 0..lead {
+        s.push_str(&format!("# lead {i} {filler}\n"));
+    }
+    s.push_str(doc);
+    if !s.ends_with('\n') {
+        s.push('\n');
+    }
+    for i in 0..trail {
+        s.push_str(&format!("# trail {i} {filler}\n"));
+    }
+    if crlf { s.replace('\n', "\r\n") } else { s }
+}
+
+/// an aperiodic word for position i (so that a fragment of a long line has a unique position)
+fn word(i: usize, flavour: usize) -> String {
+    let h = engine::splitmix(i as u64 ^ 0x5eed);
+    let base = format!("{:x}", h & 0xffffff);
+    match flavour % 8 {
+        0 => base,
+        1 => format!("世{base}界"),
+        2 => format!("é{base}ü"),
+        3 => format!("{base}\t{}", h % 7),
+        4 => format!("{base}\u{7f}\u{9b}{}", h % 5),
+        5 => format!("e\u{301}{base}😀"),
+        6 => format!("{}\u{1b}[3{}m", base, h % 8),
+        _ => {
+            // mixed: choose by position
+            return word(i, (h >> 32) as usize % 7);
+        }
+    }
+}
+
+#[derive(Clone, Copy, Debug)]
+enum LongKind {
+    IntSeq,
+    AliasSeq,
+    PlainValue,
+    DupFlowMap,
+    Unterminated,
+}
+
+/// One long line of roughly `total` characters with the error roughly at character `at`.
+fn long_line(kind: LongKind, total: usize, at: usize, flavour: usize) -> (String, Target) {
+    let mut s = String::new();
+    match kind {
+        LongKind::IntSeq => {
+            s.push('[');
+            let mut i = 0usize;
+            let mut placed = false;
+            while s.chars().count() < total {
+                if !placed && s.chars().count() >= at {
+                    s.push_str("x7, ");
+                    placed = true;
+                }
+                s.push_str(&format!("{}, ", 100000 + (engine::splitmix(i as u64) % 800000)));
+                i += 1;
+            }
+            if !placed {
+                s.push_str("x7, ");
+            }
+            s.push_str("1]");
+            (s, Target::VecI32)
+        }
+        LongKind::AliasSeq => {
+            s.push_str("k: [");
+            let mut i = 0usize;
+            let mut placed = false;
+            let mut n = 4usize;
+            while n < total {
+                if !placed && n >= at {
+                    s.push_str("*zz, ");
+                    n += 5;
+                    placed = true;
+                }
+                let w = word(i, flavour);
+                n += w.chars().count() + 4;
+                s.push('"');
+                s.push_str(&w);
+                s.push_str("\", ");
+                i += 1;
+            }
+            if !placed {
+                s.push_str("*zz, ");
+            }
+            s.push_str("0]");
+            (s, Target::Untyped)
+        }
+        LongKind::PlainValue => {
+            s.push_str("a: ");
+            let mut i = 0usize;
+            let mut n = 3usize;
+            while n < total {
+                let w = word(i, flavour);
+                n += w.chars().count() + 1;
+                s.push_str(&w);
+                s.push(' ');
+                i += 1;
+            }
+            s.push('z');
+            (s, Target::Strict)
+        }
+        LongKind::DupFlowMap => {
+            s.push('{');
+            let mut i = 0usize;
+            let mut placed = false;
+            let mut n = 1usize;
+            while n < total {
+                if !placed && n >= at && i > 0 {
+                    s.push_str("k0: 9, ");
+                    n += 7;
+                    placed = true;
+                }
+                let w = format!("k{i}: {}, ", engine::splitmix(i as u64) % 1000);
+                n += w.len();
+                s.push_str(&w);
+                i += 1;
+            }
+            if !placed {
+                s.push_str("k0: 9, ");
+            }
+            s.push_str("end: 0}");
+            (s, Target::MapI32)
+        }
+        LongKind::Unterminated => {
+            s.push_str("k: \"");
+            let mut i = 0usize;
+            let mut n = 4usize;
+            while n < total {
+                let w = word(i, flavour);
+                n += w.chars().count() + 1;
+                s.push_str(&w);
+                s.push(' ');
+                i += 1;
+            }
+            (s, Target::Untyped)
+        }
+    }
+}
+
+/// a comment line of about `len` characters
+fn comment_line(len: usize, flavour: usize, salt: usize) -> String {
+    let mut s = String::from("# ");
+    let mut i = salt * 1000;
+    while s.chars().count() < len {
+        s.push_str(&word(i, flavour));
+        s.push(' ');
+        i += 1;
+    }
+    s
+}
+
+fn pick<T: Copy>(v: &[T], h: u64) -> T {
+    v[(h % v.len() as u64) as usize]
+}
+
+/// reader entries must not see the known hang input; fall back to the string entry point
+fn safe_entry(text: &str, e: Entry) -> (Entry, bool) {
+    if is_reader(e) && reader_hang_risk(text) { (Entry::Str, true) } else { (e, false) }
+}
+
+const TOKENS: [&str; 60] = [
+    "a", "b", "k", "zz", "1", "-2", "3.5", "true", "null", "~", ": ", ":", " ", "  ", "\n", "\n", "\n  ", "\n    ", "\r\n", "- ", "-",
+    "[", "]", "{", "}", ",", ", ", "\"", "'", "&a ", "*a", "*b", "!t ", "!!str ", "!!binary ", "| ", ">\n", "#", " # c", "%", "?", "? ",
+    "---\n", "...\n", "\t", "世界", "😀", "é", "\u{7f}", "\u{9b}", "\u{1b}[1m", "\u{85}", "\u{2028}", "\\e", "\\x9b", "\\\"", "<<: ",
+    "\u{200d}", "e\u{301}", "\u{0}",
+];
+
+#[derive(Default)]
+struct Tally(std::cell::RefCell<BTreeMap<String, u64>>);
+impl Tally {
+    fn add(&self, k: &str) {
+        *self.0.borrow_mut().entry(k.to_string()).or_insert(0) += 1;
+    }
+    fn flush<P: Property>(&self, ctx: &mut Ctx<P>) {
+        for (k, v) in self.0.borrow().iter() {
+            ctx.class_n(k, *v);
+        }
+        self.0.borrow_mut().clear();
+    }
+}
+
+/// classify a case for the evidence (and decide non-triviality)
+fn classify(c: &Case, t: &Tally) -> bool {
+    if is_reader(c.entry) && reader_hang_risk(&c.text) {
+        return false;
+    }
+    let f = facts(c);
+    let Some(err) = &f.err else {
+        t.add("input accepted (no error)");
+        return false;
+    };
+    t.add(&format!("error {}", variant_name(err)));
+    t.add(if is_reader(c.entry) { "entry reader" } else { "entry string" });
+    t.add(&format!("crop_radius {}", if c.opts.crop == usize::MAX { "usize::MAX".to_string() } else { c.opts.crop.to_string() }));
+    let Some((l, col)) = f.loc else {
+        t.add("no location");
+        return false;
+    };
+    let mut nt = false;
+    let reflected_special = f.messages.iter().any(|m| m.chars().any(|ch| !ch.is_ascii() || is_forbidden(ch)));
+    if reflected_special {
+        t.add("message reflects non-ASCII / control text");
+        nt = true;
+    }
+    if sig_reflected_control(&f) {
+        t.add("message reflects a control character (finding 1 domain)");
+    }
+    if let Some(line) = f.model.line(l) {
+        let n = line.chars().count();
+        let r = c.opts.crop;
+        if r > 0 && n > r.saturating_mul(2).saturating_add(1) {
+            t.add("error line longer than 2r+1 (cropping)");
+            nt = true;
+        }
+        let lo = col.saturating_sub(r.saturating_add(1));
+        let hi = col.saturating_add(r);
+        let mut ctrl = false;
+        let mut multi = false;
+        let mut wide = false;
+        let mut tab = false;
+        for (k, ch) in line.chars().enumerate() {
+            if k < lo || k >= hi {
+                continue;
+            }
+            if is_forbidden(ch) {
+                ctrl = true;
+            }
+            if ch.len_utf8() > 1 {
+                multi = true;
+            }
+            if cw(ch) != 1 {
+                wide = true;
+            }
+            if ch == '\t' {
+                tab = true;
+            }
+        }
+        if ctrl {
+            t.add("control character inside the window of the error line");
+            nt = true;
+        }
+        if multi {
+            t.add("multi-byte character inside the window");
+            nt = true;
+        }
+        if wide {
+            t.add("wide / zero-width character or tab inside the window");
+        }
+        if tab {
+            t.add("tab inside the window");
+        }
+        if l == 1 {
+            t.add("error on the first line");
+        }
+        if l + 1 >= f.model.lines.len() {
+            t.add("error on the last line");
+        }
+    }
+    if c.text.contains("\r\n") {
+        t.add("CRLF input");
+    }
+    nt
+}
+
+thread_local! {
+    /// evidence bookkeeping only (what the layout checks could do on each evaluated case); never
+    /// influences a verdict
+    static NOTE_TALLY: Tally = Tally::default();
+}
+fn tally_notes(c: &Case, notes: &Notes) {
+    NOTE_TALLY.with(|t| {
+        if notes.snippet_form {
+            t.add("snippet form rendered");
+            if is_reader(c.entry) {
+                t.add("snippet form rendered (reader)");
+                if c.text.len() > RING {
+                    t.add("snippet form rendered (reader, input larger than the ring)");
+                }
+            }
+        } else {
+            t.add("plain form only");
+        }
+        if notes.windows > 1 {
+            t.add("two windows (reference + definition)");
+        }
+        if notes.cropped_shown {
+            t.add("a cropped line was shown and matched");
+        }
+        if notes.trimmed_by_renderer {
+            t.add("line trimmed by annotate-snippets (weak caret check)");
+        }
+        if notes.caret_checked > 0 {
+            t.add("caret position checked");
+        }
+        for s in notes.caret_skipped.iter().collect::<std::collections::BTreeSet<_>>() {
+            t.add(&format!("layout check skipped: {s}"));
+        }
+        if let Some(u) = &notes.unparsed {
+            t.add(&format!("layout not understood: {u}"));
+        }
+    })
+}
+
+// ------------------------------------------------------------------------------------------
+
+struct C17;
+
+fn emit(ctx: &mut Ctx<C17>, t: &Tally, sub: &str, text: String, target: Target, entry: Entry, opts: DeOpts) {
+    let (entry, switched) = safe_entry(&text, entry);
+    if switched {
+        t.add("reader entry replaced by from_str (known %-at-end reader hang excluded by construction)");
+    }
+    let c = Case { text, target, entry, opts };
+    let nt = classify(&c, t);
+    ctx.case(sub, &c, nt);
+}
+
+impl Property for C17 {
+    const ID: &'static str = "C17";
+    type Case = Case;
+    fn rule() -> String {
+        "case = (input text, target type, entry point {from_str, from_slice, from_multiple, from_reader with chunk 1 / 7 / 8192, read iterator}, options {crop_radius in {0,1,5,64,10^6,usize::MAX}, with_snippet, no_schema, angle conversions, duplicate-key policy}); every case is rendered through Display, render_with_options with the developer / user / a custom formatter (custom Localizer) / developer formatter with custom Localizer x SnippetMode {Auto, Off}, and through the miette adapter (GraphicalReportHandler unicode_nocolor, NarratableReportHandler; message, labels and exposed source). Inputs: documents reflecting YAML escapes and raw control / wide / bidi text into messages (unknown field, unknown variant, duplicate key, invalid type/value, custom serde messages, tags, validation paths, alias errors); lines of 10-20 k characters with the error at swept columns, with long and short context lines; an exhaustive cube of (prefix length, suffix length, character class, radius, context shape) around the error column; CRLF; tabs; errors on first / last line; many-line inputs larger than the 3 KiB reader ring; two-window (anchor) reports; random token documents and mutated seeds. Oracle: no panic; no C0 (except \\n, \\t) / DEL / C1 in any output; snippet layout parsed: <= 5 consecutive source lines inside [L-2, L+2] containing L, every shown line is a fragment of the input line with that number, <= 2r+1 characters (per side <= r on the error line; short context lines entirely left of the window may be intact), caret above the character at (L, C) in display columns or at end of line; SnippetMode::Off / crop_radius 0 / with_snippet false render no snippet. Non-trivial: the error has a location and (the error line is longer than 2r+1, or a control / multi-byte character lies inside the window, or the message reflects non-ASCII or control text). distinct = distinct cases.".into()
+    }
+    fn assumptions() -> Vec<String> {
+        vec![
+            "inputs with U+FEFF anywhere after the start of the text get only the no-panic and no-control-character checks".into(),
+            "inputs containing a lone CR line break (not part of CRLF) get only the no-panic and no-control-character checks: the parser counts CR as a line break, the snippet code splits at LF only, and nothing documents which line should be shown".into(),
+            "reports whose message text itself contains line breaks (reflected \"\\n\", several validation issues) get only the no-panic and no-control-character checks (the layout is ambiguous to parse)".into(),
+            "a location on the implicit empty line after a final line break: annotate-snippets does not display that line and attaches the marker to the end of the previous line; accepted".into(),
+            "lines wider than 140 columns are additionally trimmed by annotate-snippets itself ('...'); for those only the character above the caret is compared".into(),
+            "in the secondary (anchor definition) window the caret is only checked when every character before it is one column wide (that window counts characters, not display columns; undocumented)".into(),
+            "whether a reader-based report contains a snippet at all is not asserted (depends on what the 3 KiB ring still holds); from_reader ignoring with_snippet=false is not asserted either".into(),
+            "reader entry points are never given an input whose last, unterminated line contains '%' (known hang in the parser dependency)".into(),
+            "context lines are only checked for being fragments of the right input line and for the length bound, not for column alignment with the error line".into(),
+        ]
+    }
+    fn check(c: &Case) -> Outcome {
+        if is_reader(c.entry) && reader_hang_risk(&c.text) {
+            return Outcome::Discard("reader entry with '%' in the last unterminated line (known hang)");
+        }
+        match check_case(c) {
+            Ok(notes) => {
+                tally_notes(c, &notes);
+                Outcome::Pass
+            }
+            Err(m) => Outcome::Fail(m),
+        }
+    }
+    fn signatures(c: &Case) -> Vec<&'static str> {
+        if is_reader(c.entry) && reader_hang_risk(&c.text) {
+            return vec![];
+        }
+        let f = facts(c);
+        let mut v = vec![];
+        if sig_reflected_control(&f) {
+            v.push("reflected_control_in_message");
+        }
+        if sig_reader_partial_line(c, &f) {
+            v.push("reader_ring_starts_inside_error_line");
+        }
+        if sig_secondary_gutter(c, &f) {
+            v.push("secondary_window_gutter");
+        }
+        v
+    }
+    fn shrink(c: &Case) -> Vec<Case> {
+        let mut out = vec![];
+        let d = opts_with(c.opts.crop, c.opts.snippet);
+        if c.opts != d {
+            out.push(Case { opts: d, ..c.clone() });
+        }
+        if c.entry != Entry::Str && c.entry != Entry::Reader1 {
+            out.push(Case { entry: if is_reader(c.entry) { Entry::Reader1 } else { Entry::Str }, ..c.clone() });
+        }
+        if c.entry == Entry::Reader1 {
+            out.push(Case { entry: Entry::Str, ..c.clone() });
+        }
+        let with = |t: String| Case { text: t, ..c.clone() };
+        // drop whole lines
+        let lines: Vec<&str> = c.text.split_inclusive('\n').collect();
+        if lines.len() > 1 {
+            if lines.len() > 8 {
+                let h = lines.len() / 2;
+                out.push(with(lines[h..].concat()));
+                out.push(with(lines[..h].concat()));
+            }
+            if lines.len() <= 60 {
+                for i in 0..lines.len() {
+                    let mut v = lines.clone();
+                    v.remove(i);
+                    out.push(with(v.concat()));
+                }
+            }
+        }
+        // cut chunks out of long lines, then single characters
+        let chars: Vec<char> = c.text.chars().collect();
+        let n = chars.len();
+        if n > 40 {
+            for parts in [2usize, 4, 8, 16, 32] {
+                let step = n / parts;
+                if step == 0 {
+                    break;
+                }
+                for k in 0..parts {
+                    let (a, b) = (k * step, ((k + 1) * step).min(n));
+                    let t: String = chars[..a].iter().chain(chars[b..].iter()).collect();
+                    out.push(with(t));
+                }
+            }
+        } else {
+            for i in 0..n {
+                let mut v = chars.clone();
+                v.remove(i);
+                out.push(with(v.into_iter().collect()));
+            }
+            for i in 0..n {
+                if !chars[i].is_ascii() {
+                    let mut v = chars.clone();
+                    v[i] = 'a';
+                    out.push(with(v.into_iter().collect()));
+                }
+            }
+        }
+        out
+    }
+    fn selfcheck() -> Result<(), String> {
+        // the harness' own formatter / localizer must be clean
+        let probe = Error::Eof { location: Location::UNKNOWN };
+        for s in [
+            HarnessFormatter.format_message(&probe).into_owned(),
+            HARNESS_L10N.root_path_label().into_owned(),
+            HARNESS_L10N.defined().into_owned(),
+            HARNESS_L10N.defined_here().into_owned(),
+            HARNESS_L10N.value_used_here().into_owned(),
+            HARNESS_L10N.defined_window().into_owned(),
+        ] {
+            if first_forbidden(&s).is_some() {
+                return Err("harness formatter emits a control character".into());
+            }
+        }
+        // the line model must reproduce what the renderer prints for a line with tabs, wide,
+        // control, bidi and zero-width characters (otherwise the layout oracle would raise false alarms)
+        let text = "a: 1\nb: [\"\t世界\u{7f}x\u{9b}y\u{202e}z\u{200d}e\u{301}\", *zz, q]\nc: 2\n";
+        let c = Case { text: text.to_string(), target: Target::Untyped, entry: Entry::Str, opts: DeOpts::default() };
+        let Some(err) = parse_case(&c) else { return Err("self-check document unexpectedly parses".into()) };
+        let out = err.to_string();
+        let Ok(Some(w)) = parse_windows(&out) else { return Err(format!("self-check: cannot parse the reference report:\n{out}")) };
+        let m = Model::new(text);
+        let lm = LineModel::new(m.line(2).unwrap(), true);
+        let shown = w[0].lines.iter().find_map(|g| if let GLine::Src(2, t, _) = g { Some(t.clone()) } else { None });
+        if shown.as_deref() != Some(lm.full.as_str()) {
+            return Err(format!("self-check: line model {:?} differs from the rendering {:?}", lm.full, shown));
+        }
+        match check_case(&c) {
+            Ok(n) if n.caret_checked >= 5 => Ok(()),
+            Ok(n) => Err(format!("self-check: caret checked only {} times", n.caret_checked)),
+            Err(e) => Err(format!("self-check: reference document fails the oracle: {e}")),
+        }
+    }
+    fn generate(ctx: &mut Ctx<Self>) {
+        gen_all(ctx)
+    }
+}
+
+fn gen_all(ctx: &mut Ctx<C17>) {
+    use proptest::prelude::*;
+    let t = Tally::default();
+    let seed = ctx.seed;
+    let mix = |a: u64, b: u64| engine::splitmix(seed ^ engine::splitmix(a ^ engine::splitmix(b)));
+
+    // --- 1. reflected text ----------------------------------------------------------------------
+    {
+        let mut scalars: Vec<String> = vec![];
+        for p in ESC_PAYLOADS {
+            scalars.push(format!("\"{p}\""));
+            scalars.push(format!("\"pre {p} post\""));
+        }
+        for p in RAW_PAYLOADS {
+            scalars.push(p.to_string());
+            scalars.push(format!("'{p}'"));
+            scalars.push(format!("\"{p}\""));
+        }
+        let mut docs: Vec<(String, Target, bool, bool)> = vec![];
+        for q in &scalars {
+            for (d, tg) in reflect_docs(q) {
+                docs.push((d, tg, false, false));
+            }
+        }
+        for p in ESC_PAYLOADS {
+            for (d, tg) in reflect_leaf_docs(p) {
+                docs.push((d, tg, false, false));
+            }
+        }
+        for p in RAW_PAYLOADS {
+            for (d, tg) in reflect_leaf_docs(p) {
+                docs.push((d, tg, false, false));
+            }
+        }
+        for tag in ["!E%1B%5B31m Alpha", "!Foo Alpha", "!<E%9B> Alpha", "!!E\u{7f} Alpha", "!E\u{9b}x Alpha", "!Other {x: 1}"] {
+            docs.push((format!("{tag}\n"), Target::Enum, false, false));
+            docs.push((format!("e: {tag}\n"), Target::Wrap, false, false));
+        }
+        for v in ["123", "true", "~", "0x1F", ".inf", "1e3", "null", "-.INF", "0o17", "yes"] {
+            docs.push((format!("{v}\n"), Target::Str, true, false));
+            docs.push((format!("v: [a, {v}]\n"), Target::Wrap, true, false));
+        }
+        for v in ["deg(1\u{7f})", "\"deg(\\e[31m)\"", "deg(世)", "1 + \u{9b}", "rad(x)"] {
+            docs.push((format!("f: {v}\n"), Target::Wrap, false, true));
+        }
+        let combos = ctx.tier.pick(6u64, 48u64);
+        let mut idx = 0u64;
+        for (d, tg, no_schema, angle) in &docs {
+            for j in 0..combos {
+                idx += 1;
+                if !ctx.mine(idx) {
+                    continue;
+                }
+                let h = mix(idx, j);
+                let lead = (h % 4) as usize;
+                let trail = ((h >> 4) % 4) as usize;
+                let crlf = (h >> 8) % 4 == 0;
+                let filler = pick(&["", "x", "世界", "\u{7f}\u{1b}[0m"], h >> 10);
+                let text = wrap_doc(d, lead, trail, crlf, filler);
+                let entry = pick(&ENTRIES, h >> 16);
+                let crop = pick(&RADII, h >> 24);
+                let snippet = (h >> 32) % 5 != 0;
+                let mut o = opts_with(crop, snippet);
+                o.no_schema = *no_schema;
+                o.angle = *angle;
+                emit(ctx, &t, "reflected-text", text, *tg, entry, o);
+            }
+        }
+        ctx.subspace("reflecting documents (each with rotating wrap / entry / radius / snippet combos)", docs.len() as u64, true);
+    }
+
+    // --- 2. exhaustive small cube around the error column --------------------------------------------
+    {
+        // character classes for the text left and right of the error token
+        let classes: [&[char]; 6] = [
+            &['a', 'b', 'c', 'd', 'e', 'f', 'g', 'h', 'i', 'j', 'k'],
+            &['世', '界', '語', '漢', '字', '日', '本', '中', '文', '韓', '国'],
+            &['é', 'ü', 'ß', 'ø', 'ñ', 'ç', 'å', 'æ', 'ð', 'þ', 'ï'],
+            &['a', '\t', 'b', '\t', 'c', 'd', '\t', 'e', 'f', '\t', 'g'],
+            &['a', '\u{7f}', 'b', '\u{9b}', 'c', '\u{1b}', 'd', '\u{85}', 'e', '\u{7}', 'f'],
+            &['e', '\u{301}', '😀', 'a', '\u{200d}', 'b', '\u{202e}', 'c', '世', '\t', '\u{a0}'],
+        ];
+        let radii: [usize; 4] = [1, 2, 3, 5];
+        let maxlen = ctx.tier.pick(9usize, 11usize);
+        let mut idx = 0u64;
+        let mut total = 0u64;
+        for (ci, cl) in classes.iter().enumerate() {
+            for p in 1..=maxlen {
+                for s in 0..=maxlen {
+                    for &r in &radii {
+                        for shape in 0..6usize {
+                            total += 1;
+                            idx += 1;
+                            if !ctx.mine(idx) {
+                                continue;
+                            }
+                            let prefix: String = cl.iter().take(p).collect();
+                            let suffix: String = cl.iter().rev().take(s).collect();
+                            // `prefix: *zz # suffix` – unknown alias right after the prefix
+                            let err_line = if s == 0 { format!("{prefix}: *zz") } else { format!("{prefix}: *zz #{suffix}") };
+                            let long: String = cl.iter().cycle().take(30).collect();
+                            let (before, after): (Vec<String>, Vec<String>) = match shape {
+                                0 => (vec![], vec![]),
+                                1 => (vec!["x: 1".into()], vec!["y: 2".into()]),
+                                2 => (vec![format!("# {long}"), "x: 1".into()], vec![format!("# {long}")]),
+                                3 => (vec![format!("# {long}"), format!("# {long}"), format!("# {long}")], vec![]),
+                                4 => (vec![], vec![format!("# {long}"), "y: 2".into(), "z: 3".into()]),
+                                _ => (vec!["".into(), format!("# {prefix}")], vec!["".into()]),
+                            };
+                            let mut text = String::new();
+                            for l in &before {
+                                text.push_str(l);
+                                text.push('\n');
+                            }
+                            text.push_str(&err_line);
+                            text.push('\n');
+                            for l in &after {
+                                text.push_str(l);
+                                text.push('\n');
+                            }
+                            let h = mix(idx, 77);
+                            if h % 7 == 0 {
+                                text = text.replace('\n', "\r\n");
+                            }
+                            if h % 11 == 0 {
+                                text.pop(); // no final line break
+                                if text.ends_with('\r') {
+                                    text.pop();
+                                }
+                            }
+                            let entry = pick(&[Entry::Str, Entry::Str, Entry::Reader1, Entry::Reader8192], h >> 8);
+                            let _ = ci;
+                            emit(ctx, &t, "window-cube", text, Target::Untyped, entry, opts_with(r, true));
+                        }
+                    }
+                }
+            }
+        }
+        ctx.subspace("(class, prefix length, suffix length, radius, context shape) cube around the error column", total, true);
+    }
+
+    // --- 3. long lines -------------------------------------------------------------------------------
+    {
+        let kinds = [LongKind::IntSeq, LongKind::AliasSeq, LongKind::PlainValue, LongKind::DupFlowMap, LongKind::Unterminated];
+        let totals = [10_000usize, 14_000, 20_000, 4_200, 300];
+        let reps = ctx.tier.pick(2u64, 12u64);
+        let mut idx = 0u64;
+        for (ki, kind) in kinds.iter().enumerate() {
+            for &total in &totals {
+                // error positions: start, around r, middle, near the end
+                let ats = [0usize, 3, 64, 70, 129, 200, total / 2, total - 200, total - 70, total - 10, total];
+                for (ai, &at) in ats.iter().enumerate() {
+                    for &crop in &RADII {
+                        for rep in 0..reps {
+                            idx += 1;
+                            if !ctx.mine(idx) {
+                                continue;
+                            }
+                            let h = mix(idx, 1000 + rep);
+                            let flavour = (h % 8) as usize;
+                            let (line, target) = long_line(*kind, total, at.min(total), flavour);
+                            let ctx_shape = (h >> 8) % 6;
+                            let cf = ((h >> 12) % 8) as usize;
+                            let (before, after): (Vec<String>, Vec<String>) = match ctx_shape {
+                                0 => (vec![], vec![]),
+                                1 => (vec![comment_line(12_000, cf, 1)], vec![comment_line(9_000, cf, 2)]),
+                                2 => (vec!["# short".into(), comment_line(5_000, cf, 3)], vec!["# s".into(), comment_line(300, cf, 4)]),
+                                3 => (vec![comment_line(100, cf, 5), comment_line(150, cf, 6), comment_line(200, cf, 7)], vec![]),
+                                4 => (vec![], vec![comment_line(20_000, cf, 8), "# x".into(), comment_line(50, cf, 9)]),
+                                _ => (vec![comment_line(at.min(total) / 2 + 1, cf, 10)], vec![comment_line(at.min(total) + 40, cf, 11)]),
+                            };
+                            let mut text = String::new();
+                            for l in &before {
+                                text.push_str(l);
+                                text.push('\n');
+                            }
+                            text.push_str(&line);
+                            text.push('\n');
+                            for l in &after {
+                                text.push_str(l);
+                                text.push('\n');
+                            }
+                            if (h >> 20) % 6 == 0 {
+                                text = text.replace('\n', "\r\n");
+                            }
+                            let entry = pick(&[Entry::Str, Entry::Str, Entry::Str, Entry::Reader1, Entry::Reader8192, Entry::Slice, Entry::Multi], h >> 24);
+                            let snippet = (h >> 32) % 9 != 0;
+                            let _ = (ki, ai);
+                            emit(ctx, &t, "long-lines", text, target, entry, opts_with(crop, snippet));
+                        }
+                    }
+                }
+            }
+        }
+    }
+
+    // --- 4. many lines: reader ring window, first / last line, line numbers >= 10 ------------------------
+    {
+        let reps = ctx.tier.pick(4u64, 30u64);
+        let mut idx = 0u64;
+        for &nlines in &[1usize, 2, 3, 5, 9, 12, 100, 400, 1500] {
+            for &linelen in &[4usize, 40, 300, 1100] {
+                if nlines * linelen > 400_000 {
+                    continue;
+                }
+                for pos in 0..6usize {
+                    for rep in 0..reps {
+                        idx += 1;
+                        if !ctx.mine(idx) {
+                            continue;
+                        }
+                        let h = mix(idx, 2000 + rep);
+                        let flavour = (h % 8) as usize;
+                        let bad = match pos {
+                            0 => 0,
+                            1 => nlines - 1,
+                            2 => nlines / 2,
+                            3 => nlines.saturating_sub(2),
+                            4 => (nlines.saturating_sub(1)).min(1),
+                            _ => ((h >> 40) % nlines as u64) as usize,
+                        };
+                        let kind = (h >> 8) % 3;
+                        let mut text = String::new();
+                        let mut target = Target::Untyped;
+                        for i in 0..nlines {
+                            let mut filler = String::new();
+                            let mut w = i * 50;
+                            while filler.chars().count() + 8 < linelen {
+                                filler.push_str(&word(w, flavour));
+                                filler.push(' ');
+                                w += 1;
+                            }
+                            match kind {
+                                0 => {
+                                    // mapping with an unknown alias on the bad line
+                                    if i == bad {
+                                        text.push_str(&format!("k{i}: *zz # {filler}\n"));
+                                    } else {
+                                        text.push_str(&format!("k{i}: \"{filler}\"\n"));
+                                    }
+                                }
+                                1 => {
+                                    target = Target::VecI32;
+                                    if i == bad {
+                                        text.push_str(&format!("- x{i} # {filler}\n"));
+                                    } else {
+                                        text.push_str(&format!("- {i} # {filler}\n"));
+                                    }
+                                }
+                                _ => {
+                                    // duplicate key: the bad line repeats key 0
+                                    if i == bad && i > 0 {
+                                        text.push_str(&format!("k0: 1 # {filler}\n"));
+                                    } else {
+                                        text.push_str(&format!("k{i}: 1 # {filler}\n"));
+                                    }
+                                }
+                            }
+                        }
+                        if (h >> 16) % 5 == 0 {
+                            text = text.replace('\n', "\r\n");
+                        }
+                        if (h >> 20) % 7 == 0 {
+                            text.pop();
+                            if text.ends_with('\r') {
+                                text.pop();
+                            }
+                        }
+                        let entry = pick(&[Entry::Reader1, Entry::Reader8192, Entry::Reader7, Entry::ReadIter, Entry::Str, Entry::Multi], h >> 24);
+                        let crop = pick(&RADII, h >> 32);
+                        emit(ctx, &t, "many-lines", text, target, entry, opts_with(crop, true));
+                    }
+                }
+            }
+        }
+    }
+
+    // --- 5. two-window reports (alias used at another place than the anchor) ---------------------------
+    {
+        let reps = ctx.tier.pick(2u64, 12u64);
+        let mut idx = 0u64;
+        for lead in [0usize, 1, 3, 7, 9, 12] {
+            for gap in [0usize, 1, 2, 3, 4, 5, 8, 20] {
+                for flavour in 0..8usize {
+                    for shape in 0..4usize {
+                        for rep in 0..reps {
+                            idx += 1;
+                            if !ctx.mine(idx) {
+                                continue;
+                            }
+                            let h = mix(idx, 3000 + rep);
+                            let mut text = String::new();
+                            for i in 0..lead {
+                                text.push_str(&format!("# lead {i}\n"));
+                            }
+                            let w = word(idx as usize, flavour);
+                            let (target, anchor_line, use_line) = match shape {
+                                0 => (Target::Alias, "count: &val 42".to_string(), "flag: *val".to_string()),
+                                1 => (Target::Alias, format!("count: &val 42 # {w} {}", comment_line(((h >> 8) % 300) as usize, flavour, 1)), format!("flag: *val # {w}")),
+                                2 => (Target::Garde, format!("items: {{\"{w}\": &a {{name: x, n: 5}}}}"), "list: [*a]".to_string()),
+                                _ => (Target::Validator, format!("items: {{\"{w}\": &a {{name: x, n: 5}}}}"), "list: [*a]".to_string()),
+                            };
+                            text.push_str(&anchor_line);
+                            text.push('\n');
+                            for i in 0..gap {
+                                text.push_str(&format!("# gap {i} {}\n", if i % 2 == 0 { w.as_str() } else { "" }));
+                            }
+                            text.push_str(&use_line);
+                            text.push('\n');
+                            for i in 0..((h >> 20) % 4) {
+                                text.push_str(&format!("# trail {i}\n"));
+                            }
+                            let entry = pick(&[Entry::Str, Entry::Str, Entry::Reader1, Entry::Reader8192, Entry::Multi], h >> 24);
+                            let crop = pick(&[1usize, 5, 64, 64, 1_000_000, usize::MAX, 0], h >> 32);
+                            emit(ctx, &t, "two-windows", text, target, entry, opts_with(crop, true));
+                        }
+                    }
+                }
+            }
+        }
+    }
+    t.flush(ctx);
+
+    // --- 6. random token documents and mutated seeds ------------------------------------------------
+    {
+        let targets = vec![
+            Target::Strict, Target::Enum, Target::MapI32, Target::VecI32, Target::I32, Target::Bool, Target::Str, Target::Char,
+            Target::Wrap, Target::Reflect, Target::Untyped, Target::Untyped, Target::Alias, Target::Garde, Target::Validator,
+        ];
+        let opt_s = (prop::sample::select(RADII.to_vec()), 0u8..8, any::<bool>(), any::<bool>(), 0u8..3).prop_map(|(crop, sn, ns, angle, dup)| {
+            let mut o = opts_with(crop, sn != 0);
+            o.no_schema = ns;
+            o.angle = angle;
+            o.dup = [vcheck::opts::Dup::Error, vcheck::opts::Dup::First, vcheck::opts::Dup::Last][dup as usize];
+            o
+        });
+        let soup = prop::collection::vec(prop::sample::select(TOKENS.to_vec()), 1..40).prop_map(|v| v.concat());
+        let strat = (soup, prop::sample::select(targets.clone()), prop::sample::select(ENTRIES.to_vec()), opt_s.clone()).prop_map(
+            |(text, target, entry, opts)| {
+                let (entry, _) = safe_entry(&text, entry);
+                Case { text, target, entry, opts }
+            },
+        );
+        let tally = Tally::default();
+        ctx.run_strategy("token-soup", 1, ctx.tier.pick(6_000, 80_000), &strat, |c| classify(c, &tally));
+        tally.flush(ctx);
+
+        // mutated seeds: a reflecting or structured document with a few token-level edits
+        let seeds: Vec<(String, Target)> = {
+            let mut v = vec![];
+            for q in ["\"\\e[31mX\"", "\"\\x9b\"", "世界", "'\u{7f}'", "plain", "\"a\\tb\""] {
+                v.extend(reflect_docs(q));
+            }
+            v.push(("count: &val 42\nx: 1\ny: 2\nz: 3\nflag: *val\n".into(), Target::Alias));
+            v.push(("items:\n  k: &a {name: x, n: 5}\nlist:\n  - *a\n  - {name: abcd, n: 3}\ntitle: t\n".into(), Target::Garde));
+            v.push(("items:\n  k: &a {name: x, n: 5}\nlist:\n  - *a\n  - {name: abcd, n: 3}\ntitle: t\n".into(), Target::Validator));
+            v.push(("e: {Gamma: {x: 1}}\nm: {a: 1, b: 2}\ns: {a: 1, b: text, c: [1, 2]}\nv: [a, b]\nch: x\nf: 1.5\nt: [1, true]\n".into(), Target::Wrap));
+            v
+        };
+        let nseeds = seeds.len();
+        let edit = (0usize..1000, 0u8..4, prop::sample::select(TOKENS.to_vec()));
+        let strat = (0..nseeds, prop::collection::vec(edit, 1..5), prop::sample::select(ENTRIES.to_vec()), opt_s.clone(), 0usize..4, any::<bool>()).prop_map(
+            move |(si, edits, entry, opts, lead, crlf)| {
+                let (doc, target) = &seeds[si];
+                let mut chars: Vec<char> = doc.chars().collect();
+                for (pos, op, tok) in edits {
+                    if chars.is_empty() {
+                        break;
+                    }
+                    let p = pos % chars.len();
+                    match op {
+                        0 => {
+                            chars.remove(p);
+                        }
+                        1 => {
+                            let c = chars[p];
+                            chars.insert(p, c);
+                        }
+                        2 => {
+                            for (k, ch) in tok.chars().enumerate() {
+                                chars.insert(p + k, ch);
+                            }
+                        }
+                        _ => {
+                            let q = (p * 7 + 3) % chars.len();
+                            chars.swap(p, q);
+                        }
+                    }
+                }
+                let doc: String = chars.into_iter().collect();
+                let text = wrap_doc(&doc, lead, lead / 2, crlf, "f");
+                let (entry, _) = safe_entry(&text, entry);
+                Case { text, target: *target, entry, opts }
+            },
+        );
+        ctx.run_strategy("mutated-seeds", 2, ctx.tier.pick(6_000, 80_000), &strat, |c| classify(c, &tally));
+        tally.flush(ctx);
+
+        // random long line: position, length, radius all random (complements the fixed sweep)
+        let strat = (0usize..5, 300usize..6000, 0usize..6000, 0usize..8, prop::sample::select(vec![1usize, 2, 5, 17, 64, 100, 1000]), prop::sample::select(vec![Entry::Str, Entry::Str, Entry::Reader1, Entry::Reader8192]), 0usize..3)
+            .prop_map(|(k, total, at, flavour, crop, entry, ctxl)| {
+                let kind = [LongKind::IntSeq, LongKind::AliasSeq, LongKind::PlainValue, LongKind::DupFlowMap, LongKind::Unterminated][k];
+                let (line, target) = long_line(kind, total, at.min(total), flavour);
+                let mut text = String::new();
+                for i in 0..ctxl {
+                    text.push_str(&comment_line(total / (i + 1), flavour, i));
+                    text.push('\n');
+                }
+                text.push_str(&line);
+                text.push('\n');
+                for i in 0..ctxl {
+                    text.push_str(&comment_line(at / (i + 1) + 3, flavour, i + 5));
+                    text.push('\n');
+                }
+                let (entry, _) = safe_entry(&text, entry);
+                Case { text, target, entry, opts: opts_with(crop, true) }
+            });
+        ctx.run_strategy("long-lines-random", 3, ctx.tier.pick(1_500, 20_000), &strat, |c| classify(c, &tally));
+        tally.flush(ctx);
+    }
+    NOTE_TALLY.with(|n| n.flush(ctx));
+    let pp = PARSE_PANICS.with(|p| p.get());
+    if pp > 0 {
+        ctx.class_n("parse itself panicked (not rendered; C01/C19 domain), evaluations incl. classification", pp);
+    }
+}
+
+fn main() {
+    let args: Vec<String> = std::env::args().collect();
+    if args.get(1).map(|s| s.as_str()) == Some("show") {
+        engine::install_panic_hook();
+        show(&args[2]);
+        return;
+    }
+    engine::main::<C17>()
 }
